@@ -4,6 +4,7 @@ pub mod c07;
 pub mod c12;
 pub mod c16;
 pub mod c17;
+pub mod rel;
 
 pub fn dispatch(_cmd: &str, _a: &Args) -> bool {
     match _cmd {
@@ -11,6 +12,9 @@ pub fn dispatch(_cmd: &str, _a: &Args) -> bool {
         "c12" => c12::run(_a),
         "c16" => c16::run(_a),
         "c17" => c17::run(_a),
+        "c10" => rel::c10(_a),
+        "c14" => rel::c14(_a),
+        "c15" => rel::c15(_a),
         _ => return false,
     }
     #[allow(unreachable_code)]
